@@ -17,7 +17,20 @@ PROP = dict(
              "supply clause is evaluated for EVERY pool whenever its supply changed or one of its requests was executed; workload keeper-f1 = the directed search of C05 (known finding C05-F1 reached through the keeper) judged by the C04 predicates: the pair escrow then holds less than the remaining offer coins "
              "of its live orders (kf_C05_1_via_fills) and a rolled-back batch leaves requests pending for ever (kf_C05_2_stall); the module's own invariants are "
              "run after every block as a second opinion (recorded, never substituted for the predicates); non-trivial = at least one deposit/withdraw "
-             "request was executed and one farm/unfarm succeeded; distinct by digest of the op kinds and result classes",
+             "request was executed and one farm/unfarm succeeded; distinct by digest of the op kinds and result classes. "
+             "All predicates are evaluated after EVERY message (transaction), BeginBlocker and EndBlocker. In 70% of the cases a SOLE-PROVIDER scenario runs through the "
+             "in-transaction execution paths (MsgDepositAndFarm / MsgUnfarmAndWithdraw execute their request inside the transaction, not in the batch): the account that holds the WHOLE "
+             "pool-coin supply of a pool farms all of it (in one piece, in two pieces, across block boundaries / the maturation of the farming queue) and unfarms-and-withdraws all of it, "
+             "all but one share and then the last share, one share more than farmed (refused) and then all, a part in the transaction and the rest through a withdraw request of the batch, "
+             "or after a second provider joined by deposit-and-farm (the creator leaves, then the second provider: the supply reaches zero with the LAST of them); followed in the SAME "
+             "block by 2-5 deposits / deposit-and-farm / withdraw requests / farm / unfarm-and-withdraw on that pool and basic / ranged pool creation attempts on its pair (a pool whose "
+             "supply reached zero inside a transaction must be disabled at once: deposits are refused, a new basic pool of the pair is accepted); 8% of the random pool messages are sent by "
+             "the pool creator. The order stream contains WRONG-COIN orders (5% of the order ops, and in 60% of the cases a battery of 5-10 of them around a resting buy and a resting sell "
+             "order, then counter orders that cross those): limit / market orders whose coins are wrong in one position at a time - right demand coin with a foreign offer coin, right offer "
+             "coin with a foreign demand coin, swapped, both foreign, the pair's other coin in the wrong position, the same coin twice; the foreign coin is the third asset of the app, the "
+             "fee asset or the pool coin of a pool of this or another app - sent by accounts that HOLD the offered coin with valid price and amounts, so that the pair check of "
+             "ValidateMsgLimitOrder / ValidateMsgMarketOrder decides (MsgMMOrder carries no coin denoms). The pair-escrow clause is evaluated per DENOM: for the pair's two coins, every "
+             "asset and every coin an accepted order offers, escrow balance >= remaining offer coins of the pair's live orders in that denom",
         modelled=["the matching engine (C05's subject) and the pool share arithmetic (C06's subject) enter as ENV read off the implementation's records; "
                   "the theorems hold for every ENV", "sdk.Int 256-bit overflow panics (amounts stay below 10^40)",
                   "gas, events, reward gauges (farming rewards are paid by x/rewards, outside the liquidity custody accounts)",
